@@ -70,6 +70,11 @@ class Ctx(object):
     def choose(self, n):
         return self.s.choose(n)
 
+    def forced(self, on):
+        """Set-up phase: while on, every scheduling point takes the default (first) thread and
+        is not a choice point; exploration starts from the state the default schedule reaches."""
+        self.s.forced = bool(on)
+
     def emit(self, kind, **data):
         return self.s.emit(kind, **data)
 
